@@ -21,21 +21,40 @@ def nontrivial(e):
 
 
 def MC_RUNS(quick):
-    runs = [("Enc", "Enc_oaep", "EME-OAEP encode + parser with byte-length bookkeeping, toy 1-byte hash / MGF over Z_4: k = 5, every "
-                                "message of 0..2 bytes x every seed; every 5-byte string over {0,1,2,3} parsed", False),
-            ("Enc", "Enc_pkcs1", "EME-PKCS1-v1_5 block 00 02 PS 00 M with minimum padding 2, k = 6, bytes {0,1,2,3}: every message, "
-                                 "every padding string; every 6-byte string parsed", False),
-            ("Enc", "Enc_paillier", "Paillier over every n = p q < 2^7 (p, q odd primes, gcd(n, phi) = 1): every m, r: Dec(Enc) = m, "
-                                    "homomorphism incl. wrap", False),
-            ("Enc", "Enc_shamir", "Shamir over Z_q, q in {5, 7}, n <= 4, every threshold t <= n, every polynomial of degree < t: every "
-                                  "t-subset reconstructs, and t-1 shares are consistent with every secret", False),
-            ("Flows", "Flows", "delegated pairing (public-input and private-input flavour) and set intersection as message flows over "
-                               "the abstract bilinear group Z_r, r = 5, e(a,b) = ab, helper / sender deviates in at most one message", False)]
+    runs = [("Enc", "Enc_oaep", "pad_pkcs2 RSA_ENC/ENC_FIN/DEC as coded vs RFC 8017 7.1, toy 1-byte hash / MGF over bytes 0..3, k = 6: every "
+                                "message of 0..2 bytes x every seed; every 6-byte string parsed", False),
+            ("Enc", "Enc_pkcs1", "pad_pkcs1 RSA_ENC/DEC with the |PS| test vs RFC 8017 7.2, minimum padding 2, k = 7, bytes 0..3: every message "
+                                 "and padding string; every 7-byte string parsed", False),
+            ("Enc", "Enc_paillier", "Paillier, every n = p q <= 100 with gcd(n, phi) = 1: every m and unit r: L-function and CRT decryption "
+                                    "as coded invert; products decrypt to sums mod n (all operand pairs for n <= 21, wrap pairs above)", False),
+            ("Enc", "Enc_shamir", "mpc_sss_gen / mpc_sss_key as coded over Z_5, Z_7, n <= 4 shares, every threshold and every polynomial: "
+                                  "every t-subset reconstructs; t-1 shares are consistent with every secret", False),
+            ("Flows", "Flows", "cp_pdpub / cp_lvpub client steps as coded + pairing-based PSI over the abstract bilinear group Z_5 "
+                               "(e(a,b) = ab): every input, secret and every single replaced response element; PSI sets of size <= 2", False),
+            ("Flows", "Flows_prv", "cp_pdprv / cp_lvprv over Z_3: every input, blinding and single replaced response element", False)]
     if not quick:
-        runs += [("Enc", "Enc_oaep_k6", "k = 6, messages of 0..3 bytes", False),
-                 ("Enc", "Enc_paillier_big", "every n = p q < 2^9", False),
-                 ("Flows", "Flows_r7", "r = 7", False)]
+        runs += [("Enc", "Enc_oaep_k7", "k = 7, messages of 0..3 bytes", False),
+                 ("Enc", "Enc_paillier_big", "every n = p q <= 215", False),
+                 ("Flows", "Flows_r7", "Z_7, PSI sets of size <= 3", False),
+                 ("Flows", "Flows_prv5", "private-input delegation over Z_5 (blinding points from {0, 2})", False)]
     return runs
+
+
+# a configuration that MUST fail: the PKCS#1 v1.5 decoder exactly as coded never counts the padding string
+EXPECTED = [("Enc", "Enc_pkcs1_ascoded", "CodedIsDefinition",
+             "pad_pkcs1 RSA_DEC exactly as coded: counterexample = 00 02 00 M (empty padding string accepted)")]
+
+
+def expect_violation(ev, mod, cfg, invariant, consts):
+    r = core.tlc("model/%s.tla" % mod, "model/%s.cfg" % cfg, workers=4, timeout=1200)
+    ev.add_mc(cfg, r, consts + " [expected counterexample: %s]" % invariant)
+    rec = next(m for m in reversed(ev.cov["mc_runs"]) if m["spec"] == cfg)
+    rec["expected_violation"] = invariant
+    rec["ok"] = (r.invariant_violated == invariant)
+    if r.invariant_violated != invariant:
+        raise core.InfraError("model %s/%s: expected a counterexample to %s, got %r\n%s"
+                              % (mod, cfg, invariant, r.invariant_violated, r.out[-2500:]))
+    core.log("model %s: counterexample to %s found as expected (%d states, %.1fs)" % (cfg, invariant, r.distinct, r.wall))
 
 
 def _verdicts(ev, label, events):
@@ -79,6 +98,9 @@ def run(tier, seed):
                       "cp_ecies_dec may decline when the output buffer is smaller than the ciphertext body",
                       "plaintexts outside the scheme's space (Paillier m >= n, Benaloh m >= t) are not judged"]
     core.run_models(ev, MC_RUNS(quick))
+    if core.COLLECT is None:
+        for x in EXPECTED:
+            expect_violation(ev, *x)
     conf = core.Conformance("C06", ev, wd)
 
     def go(label, cfg, cases, shuffle=True, **kw):
@@ -105,12 +127,46 @@ def run(tier, seed):
 
 
 PC_CONSTRUCTIVE = []
-PC_COMPLETENESS = []
-PC_NOT_COVERED = ["cp_ibe", "cp_bgn", "cp_sokaka", "cp_pdpub/pdprv/lvpub/lvprv", "cp_rsapsi/shipsi/pbpsi", "mpc_pc", "cp_ped"]
+PC_COMPLETENESS = ["Boneh-Franklin IBE (cp_ibe: round trip for lengths 1..32, refusals by length)",
+                   "BGN (cp_bgn: G1 / G2 round trip, sum, product, sum of products)",
+                   "SOK key agreement (cp_sokaka: both keys equal)",
+                   "delegated pairing cp_pdpub / cp_pdprv / cp_lvpub / cp_lvprv (honest: e(P,Q) by the library's pc_map; every single "
+                   "tampered response element must be rejected; flow logic model-checked in Flows)",
+                   "set intersection cp_rsapsi / cp_shipsi / cp_pbpsi (output = exact intersection decided in TLA+)",
+                   "pairing triples pc_map_tri / pc_map_lcl / bct / mpc (relation by the library's pc_map)"]
+PC_NOT_COVERED = ["cp_ped (Pedersen commitments are not named by the property)", "g1/g2/gt_mul_* share multiplications (mpc_mt covers the "
+                  "scalar protocol)"]
 
 
 def pc_cases(rng, tier):
-    return []
+    quick = tier == "quick"
+    sd = lambda: gen_enc.seed(rng)
+    cases = []
+    for a, b, l in [("Alice", "Bob", 32), ("a", "b", 1), ("Alice", "Alicf", 16), ("x" * 40, "Bob", 100)]:
+        cases.append("sokaka %s %s %s %d" % (sd(), a, b, l))
+    for n in (range(0, 35) if not quick else [0, 1, 2, 15, 16, 31, 32, 33, 64]):
+        cases.append("ibe %s %s %s 256" % (sd(), rng.choice(["Alice", "Bob", "id"]), gen_enc.hx(gen_enc.plaintext(rng, n, gen_enc.CLASSES[n % 5]))))
+    cases.append("ibe %s Alice %s 69" % (sd(), gen_enc.hx(gen_enc.plaintext(rng, 5, "r"))))
+    cases.append("ibe %s Alice %s 70" % (sd(), gen_enc.hx(gen_enc.plaintext(rng, 5, "r"))))
+    ops = [0, 1, 2, 5, 10, 31]
+    pairs = [(a, b) for a in ops for b in ops]
+    rng.shuffle(pairs)
+    for a, b in pairs[:(6 if quick else 36)]:
+        cases.append("bgn %s %d %d" % (sd(), a, b))
+    for pr, ng in (("pdpub", 3), ("lvpub", 2), ("pdprv", 4), ("lvprv", 3)):
+        for _ in range(2 if quick else 6):
+            cases.append("pdel %s %s -1 g" % (pr, sd()))
+        for j in range(ng):
+            for kind in (["g", "u"] if quick else ["g", "u", "g", "g"]):
+                cases.append("pdel %s %s %d %s" % (pr, sd(), j, kind))
+    sets = [("-", "-"), ("-", "1,2,3"), ("1,2,3", "-"), ("1,2,3", "4,5,6"), ("1,2,3", "3,2,1"), ("1,2,3", "3,4,1"), ("7", "7"), ("7", "8"),
+            ("1,2,3,4,5", "5"), ("ffffffffffffffffffffffffffffffff,2", "2,ffffffffffffffffffffffffffffffff,0")]
+    for kind in ("rsa", "shi", "pb"):
+        for x, y in (sets if not quick else sets[:2] + sets[3:7]):
+            cases.append("psi %s %s %s %s" % (kind, sd(), x, y))
+    for _ in range(2 if quick else 8):
+        cases.append("pct %s" % sd())
+    return cases
 
 
 def replay(path, seed):
